@@ -32,11 +32,25 @@ pub struct Choice {
 pub struct Bound {
     pub preempt: u32,
     pub env: u32,
+    /// Bound on preemptions + environment deviations together.
+    pub total: u32,
 }
 
 impl Bound {
     pub fn new(preempt: u32, env: u32) -> Self {
-        Self { preempt, env }
+        Self {
+            preempt,
+            env,
+            total: preempt + env,
+        }
+    }
+    /// At most `total` deviations of either kind.
+    pub fn total(total: u32) -> Self {
+        Self {
+            preempt: total,
+            env: total,
+            total,
+        }
     }
 }
 
@@ -418,7 +432,10 @@ fn worker(
             let c = ctx.rec[i];
             for alt in 1..c.n {
                 let (p, e) = cost_of(&c, alt);
-                if pre + p <= bound.preempt && env + e <= bound.env {
+                if pre + p <= bound.preempt
+                    && env + e <= bound.env
+                    && pre + p + env + e <= bound.total
+                {
                     let mut child: Vec<u16> = Vec::with_capacity(i + 1);
                     child.extend(ctx.rec[..i].iter().map(|c| c.chosen));
                     child.push(alt);
@@ -484,6 +501,17 @@ pub fn explore_iterative(
             workers: limits.workers,
         };
         let mut st = explore_bound(h, b, &lim, seed)?;
+        if std::env::var("VX_VERBOSE").is_ok() {
+            eprintln!(
+                "    [{}] bound {:?}: {} executions, {} states, complete={} {:.1}s",
+                h.name(),
+                b,
+                st.executions,
+                st.states,
+                st.complete,
+                st.wall_s
+            );
+        }
         for v in &st.violations {
             all_viol.entry(v.signature.clone()).or_insert_with(|| v.clone());
         }
